@@ -645,6 +645,8 @@ public:
 
 	void Clear() noexcept
 	{
+		if (mRootNode == nullptr && mNodeParams == nullptr)
+			return;
 		pvDestroy();
 		mRootNode = nullptr;
 		mNodeParams = nullptr;
